@@ -31,7 +31,12 @@ package com.qualcomm.qti.mink;
         let mut includes = String::new();
         for node in &mir.nodes {
             if let Node::Include(i) = node.as_ref() {
-                let inc_name = i.display().to_string().replace(".idl", "");
+                // The file-level interface of an included IDL is named after its file stem,
+                // whatever directory part the include was written with.
+                let inc_name = i
+                    .file_stem()
+                    .map(|stem| stem.to_string_lossy().into_owned())
+                    .unwrap_or_default();
                 includes.push_str(&format!("{inc_name},"));
             }
         }
